@@ -1215,8 +1215,16 @@ where
                 index_type,
                 ..
             }) => {
-                if let Some(ty) = self.resolve_indexed_access(obj_type, index_type) {
-                    runtime_types.extend(self.infer_runtime_type(&ty));
+                // an access that cannot be followed (or that selects nothing) is not checked
+                // at run time: an empty list of types would reject every value
+                let types = self
+                    .resolve_indexed_access(obj_type, index_type)
+                    .map(|ty| self.infer_runtime_type(&ty))
+                    .unwrap_or_default();
+                if types.is_empty() {
+                    runtime_types.insert(Some(atom!("any")));
+                } else {
+                    runtime_types.extend(types);
                 }
             }
             TsType::TsOptionalType(TsOptionalType { type_ann, .. }) => {
